@@ -8,6 +8,20 @@ import (
 	"golang.org/x/tools/go/ssa"
 )
 
+// ctx simplifies a boolean term to a constant when the path condition decides it syntactically.
+func ctx(st *State, t *Term) *Term {
+	if t.IsConst() {
+		return t
+	}
+	switch st.implied(t) {
+	case 1:
+		return True()
+	case -1:
+		return False()
+	}
+	return t
+}
+
 // ---- maps ----
 
 type mapIter struct {
@@ -56,7 +70,7 @@ func (e *Engine) mapLookup(st *State, m *MapV, k Value, mt *types.Map) (Value, *
 	ents := e.mapSnapshot(st, m)
 	for i := len(ents) - 1; i >= 0; i-- {
 		en := ents[i]
-		hit := And(en.P, eqKey(en.K, k, mt.Key()))
+		hit := ctx(st, And(en.P, eqKey(en.K, k, mt.Key())))
 		if hit.IsFalse() {
 			continue
 		}
@@ -91,7 +105,7 @@ func (e *Engine) mapUpdate(st *State, m *MapV, k, v Value, site string) {
 		nm := &MapObj{T: mo.T, Ents: make([]MapEnt, len(mo.Ents), len(mo.Ents)+1)}
 		anyHit := False()
 		for i, en := range mo.Ents {
-			hit := And(g, en.P, eqKey(en.K, k, mo.T.Key()))
+			hit := ctx(st, And(g, en.P, eqKey(en.K, k, mo.T.Key())))
 			nm.Ents[i] = MapEnt{K: en.K, V: mergeV(hit, v, en.V), P: en.P}
 			anyHit = Or(anyHit, hit)
 		}
@@ -126,7 +140,7 @@ func (e *Engine) mapDelete(st *State, m *MapV, k Value) {
 		mo := e.mapObj(st, al.Obj)
 		nm := &MapObj{T: mo.T, Ents: make([]MapEnt, len(mo.Ents))}
 		for i, en := range mo.Ents {
-			hit := And(g, eqKey(en.K, k, mo.T.Key()))
+			hit := ctx(st, And(g, eqKey(en.K, k, mo.T.Key())))
 			nm.Ents[i] = MapEnt{K: en.K, V: en.V, P: And(en.P, Not(hit))}
 		}
 		st.heap[al.Obj] = nm
